@@ -151,7 +151,7 @@ def main():
         )
     man = dict(
         version=1,
-        setup_cmd="/venv/bin/python -c 'import hypothesis' 2>/dev/null || /venv/bin/pip install -q --no-index --find-links /opt/veriftools/wheels --target /verif/.deps hypothesis",
+        setup_cmd="(/venv/bin/python -c 'import hypothesis' 2>/dev/null || /venv/bin/pip install -q --no-index --find-links /opt/veriftools/wheels --target /verif/.deps hypothesis) && (PYTHONPATH=/verif/.deps /venv/bin/python -c 'import atheris' 2>/dev/null || /venv/bin/pip install -q --no-index --find-links /opt/veriftools/wheels --target /verif/.deps atheris)",
         hooks=dict(
             guard="PYCPARSER_VERIF",
             enable="no source hooks are needed: checks observe pycparser through its public API only (the guard variable is exported by ./check but no file under /repo reads it)",
